@@ -1,7 +1,7 @@
 SPECIFICATION Spec
 CONSTANTS
   W = 4
-  Sizes = {0, 1, 2, 3, 4, 5, 6}
+  Sizes = {0, 1, 2, 3, 4}
   MaxFaults = 1
   MaxInject = 1
   FaultKinds = {"Lose", "Drop", "Dup", "Flip", "WrongSid", "WrongFrom", "Swap", "EarlyClose"}
